@@ -164,6 +164,13 @@ class OpTypestate:
         if isinstance(t, ast.Name):
           mo.discard(t.id)
           mc.discard(t.id)
+          if isinstance(a.value, ast.Name) and a.value.id != t.id:
+            # `x = y`: both names denote the same message; keep tracking it under the new name
+            b_ = a.value.id
+            for S in (so, mo, mc):
+              if b_ in S:
+                S.discard(b_)
+                S.add(t.id)
           if isinstance(a.value, ast.Call):
             st = self._ctor_state(a.value)
             if st == 'open':
